@@ -141,6 +141,16 @@ class SInt(object):
         bs = int_bytes(self, length)
         return SBytes(bs[::-1] if byteorder == 'little' and length > 1 else bs)
 
+    def bit_length(self):
+        """int.bit_length (assumed Python semantics: the k with 2^(k-1) <= |n| < 2^k, 0 for 0): one path per value of k, the
+        result is concrete on each path.  For a bit-vector integer of width W only magnitudes below 2^(W-2) are covered."""
+        E = engine()
+        for k in range(0, (self.t.size() - 1) if self.bv else 257):
+            inside = And(self < (1 << k), self > -(1 << k))
+            if inside if isinstance(inside, bool) else E.decide(inside.t):
+                return k
+        raise Unsupported('int.bit_length: magnitude beyond the modelled range')
+
     def __init__(self, t, lo=None, hi=None):
         self.t = t
         self.lo = lo
